@@ -16,13 +16,15 @@ COMMON_TRUSTED = [
 PROPS = {
     "C01": {
         "gen": ["Numeric"],
-        "thm_module": "NutsModel.Thm.C01",
+        "thm_module": "NutsModel.Thm.C01Refine",
         "namespace": "NutsModel.C01",
         "theorems": [
             "logaddexp_spec", "logaddexp_comm", "exp_logaddexp", "coin_half", "prob_total",
             "mergeInto_eq", "takeOther_main", "takeOther_sub", "takeOther_bernOk",
             "sub_multinomial", "min_div_symm", "main_balance",
             "back_wordOf", "wordOf_back", "kernel_balance",
+            "merge_cont", "buildOther_spec", "extend_spec", "loop_spec", "S_balance", "K_eq_S",
+            "nuts_detailed_balance",
         ],
         "harness": "C01",
         "level": "proof",
@@ -35,8 +37,8 @@ PROPS = {
                  "and mirrored-trajectory symmetry. distinct_nontrivial = distinct trajectories with >=1 U-turn verdict "
                  "true and >1 RNG call, plus distinct (orbit,start,target) kernel pairs with K(s,i)>0."),
         "trusted": [
-            "C01: proved: logaddexp (translated) = log(e^a+e^b); the model's merge_into accepts with min(1,W_o/W_s) (main) resp. W_o/(W_s+W_o) (sub-tree) and never passes p outside [0,1] to random_bool; on the perfect-binary-tree abstraction: sub-trees multinomial, detailed balance inside a trajectory, direction word <-> start offset bijection, reversibility of any start-independent mixture of windows",
-            "C01: NOT proved in Lean: that Model/Tree.lean's buildOther/extend/draw compute exactly subPmf/mainPmf of the window's tree and that window validity is start-independent (the refinement lemma); this step is covered by the bit-exact correspondence of Model/Tree.lean with the real nuts::draw and by the implementation-level exact-kernel detailed-balance check",
+            "C01: proved (nuts_detailed_balance): for EVERY divergence-free orbit (energies E : Z -> R, symmetric U-turn verdicts), every maxdepth and all states s, i: exp(-E s) K(s,i) = exp(-E i) K(i,s), where K is the transition probability of the executable model Model/Tree.lean (default tree options) under the probability semantics coin = 1/2, random_bool(p) = p. Intermediate: translated logaddexp = log(e^a+e^b); merge_into accepts with min(1,W_o/W_s) (main) resp. W_o/(W_s+W_o) (sub-tree), p in [0,1]; sub-trees multinomial; refinement K = closed-form mixture over final windows (K_eq_S); mirrored direction words",
+            "C01: the model is hand-written and tied to src/nuts.rs by bit-exact trace validation (every Hamiltonian call, merge, log_size, measured Bernoulli threshold, result) and by the implementation-level exact-kernel detailed-balance check; orbit re-indexing (the leapfrog orbit through z' is the orbit through z, shifted) is C02's reversibility",
             "C01: the measure-theoretic lift from per-orbit detailed balance to invariance of pi on R^d x R^d (volume preservation + Fubini) is argued in DESIGN.md, not formalised; divergent trajectories excluded as in the property",
             "C01: uniform RNG words => Bernoulli(p) true with probability floor(p 2^64)/2^64, coin 1/2 (rand 0.10 decoding rules are modelled in Model/Rand.lean and validated by the threshold measurements)",
         ],
@@ -104,6 +106,27 @@ PROPS = {
                  "distinct_nontrivial = chains with >= 2 window switches."),
         "trusted": [
             "C09: estimator contents are modelled as lists of sample ids (which draws are inside), not their numeric values; that both estimators (two running-variance pairs / deque with background_split) realise exactly these contents is checked through their counts on every draw",
+        ],
+    },
+    "C17": {
+        "gen": [],
+        "thm_module": "NutsModel.Thm.C17",
+        "namespace": "NutsModel.C17",
+        "theorems": ["sumFrom_eq", "sum_range_mul", "sum_range_blocks", "simdSum_eq", "split_partition", "region_index",
+                     "scalar_prods2_eq", "scalar_prods3_eq", "vector_dot_eq"],
+        "harness": "C17",
+        "level": "proof",
+        "rule": ("every public vector operation of CpuMath (axpy, axpy_out, array_mult(_inplace), scalar_prods2/3, array_vector_dot, "
+                 "sq_norm_sum, the three harmonic flows, all_finite(_and_nonzero), recip, normalize, fill, sum_ln, esh_momentum_update, "
+                 "apply_lowrank_transform(_inplace) for ranks 0,1,2,5,n) for EVERY length 0..=130 x 4 value classes (moderate, full "
+                 "exponent range, one special value {0,-0,subnormal,1e-300,+-1,+-1e100,+-inf,NaN} planted in each region of the SIMD "
+                 "split, many specials); compared with the element-by-element formula (condition-aware tolerance; NaN <-> NaN, inf exact) "
+                 "by the Lean driver -- which also runs the four-accumulator model simdSum at lane widths 4 and 8 -- and independently "
+                 "by the harness; sentinel probe: every output element written. distinct_nontrivial = distinct (kernel, n) with n >= 16 "
+                 "(4x-unrolled AVX2 body entered)."),
+        "trusted": [
+            "C17: proved: the index split (n/L vectors -> n/L/4 unrolled blocks + SIMD tail, n%L scalar tail) counts every index < n exactly once for every n and every lane width L >= 1; the four-accumulator reduction equals the plain sum in any commutative monoid (hence over R); scalar_prods2/3 and vector_dot are those sums",
+            "C17: not proved: floating-point closeness (order of summation, fused multiply-add) -- measured with a condition-aware tolerance; NaN/inf behaviour is measured on the special-value grid (ill-conditioned cancellations in scalar_prods3 whose two associations differ are counted as dont_care); which SIMD width pulp dispatches to depends on the CPU (recorded in the evidence notes)",
         ],
     },
     "C07": {
